@@ -58,7 +58,19 @@ def _expected(st, backend):
     return None
 
 
-def denote_diff(term, expr, byname, rng, cap=1024):
+_verified = set()
+
+
+def skey(e):
+    """Structural key of a posted expression (for the memo of already compared (line, expression) pairs)."""
+    if isinstance(e, (bool, int)) or e is None:
+        return repr(e)
+    if isinstance(e, (BoolVar, IntVar)):
+        return name_of(e)
+    return "(" + e.op.name + " " + " ".join(skey(x) for x in e.operands) + ")"
+
+
+def denote_diff(term, expr, byname, rng, cap=128):
     """None if term and expr agree on every tried assignment, else a witness assignment."""
     names = sorted(ref_sugar.names_in(term, set()) & set(byname))
     ids = var_ids(expr) if not isinstance(expr, bool) else set()
@@ -81,7 +93,7 @@ def denote_diff(term, expr, byname, rng, cap=1024):
         def sample():
             yield tuple(d[0] for d in doms)
             yield tuple(d[-1] for d in doms)
-            for _ in range(96):
+            for _ in range(40):
                 yield tuple(d[rng.randrange(len(d))] for d in doms)
         assignments = sample()
     for vals in assignments:
@@ -137,7 +149,14 @@ def check_exchange(st, backend, mode, ret, keymask_arg=None):
             return
     try:
         for k, (term, expr) in enumerate(zip(p.constraints, constraints)):
+            line = p.lines[len(p.decls) + k] if len(p.lines) > len(p.decls) + k else None
+            memo = (line, skey(expr), tuple((n, byname[n].lo, byname[n].hi) for n in ref_sugar.names_in(term, set()) if n in byname and isinstance(byname[n], IntVar)))
+            if line is not None and memo in _verified:
+                ctx.count("mwire.lines_memo_hit")
+                continue
             d = denote_diff(term, expr, byname, ctx.rng)
+            if d is None and line is not None and len(_verified) < 200000:
+                _verified.add(memo)
             ctx.count("mwire.lines_compared")
             if d is not None:
                 _viol(st, "denotation-differs", f"constraint line {k} does not denote posted constraint {k}", backend, text, reply,
